@@ -57,9 +57,10 @@ def write_events_file(events, path):
     with open(path, "w") as f:
         for e in events:
             f.write("E\n")
-            for key, ids in e["store"].items():
+            # an empty TLA+ function is serialised as an empty JSON array
+            for key, ids in (e["store"] or {}).items():
                 f.write("S %s %d %s\n" % (key, len(ids), " ".join(str(i) for i in ids)))
-            for key, v in e["attr"].items():
+            for key, v in (e["attr"] or {}).items():
                 if v["t"] == "num":
                     f.write("N %s %r\n" % (key, v["n"] / v["d"]))
                 elif v["t"] == "obj":
